@@ -9,7 +9,7 @@ FAMILIES = {
 PROPS = {
     "C07": dict(
         family="search",
-        theorems=T("C07", "case_fold_is_model", "translated_compare_ci_is_model", "find_eq_spec", "find_eq_findRef", "find_last_eq_spec", "find_last_eq_findLastRef", "find_all_eq_spec",
+        theorems=T("C07", "case_fold_is_model", "translated_compare_ci_is_model", "translated_find_ci_is_model", "find_eq_spec", "find_eq_findRef", "find_last_eq_spec", "find_last_eq_findLastRef", "find_all_eq_spec",
                    "find_last_all_eq_spec", "find_last_limit_beyond_end", "contains_iff", "starts_with_iff", "ends_with_iff",
                    "affix_empty_trivial", "ci_eq_cs_on_fold", "fold_only_ascii_upper", "needle_forms_agree",
                    "needle_forms_agree_instances", "affix_forms_agree"),
